@@ -212,6 +212,31 @@ func buildHistory(c *core.Ctx, prop string, idx int, kind string) *histCase {
 			}
 			push(ins)
 		}
+		// a third table with a BIGINT column that holds values from both ends
+		// of its range: range conditions in DELETE / UPDATE compare them with
+		// small literals and with each other
+		push(&proto.Stmt{Kind: "create", Table: "mx", Defs: []proto.ColDef{{Name: "k", Type: "int"}, {Name: "b", Type: "bigint"}, {Name: "b2", Type: "bigint"}}})
+		{
+			ext := []int64{-9223372036854775808, -9223372036854775807, -5000000000000000000, -1, 0, 3, 100, 5000000000000000000, 9223372036854775806, 9223372036854775807}
+			ins := &proto.Stmt{Kind: "insert", Table: "mx"}
+			for i := 0; i < 16; i++ {
+				ins.Rows = append(ins.Rows, []proto.Val{proto.Int(int64(i)), proto.Int(ext[r.Intn(len(ext))]), proto.Int(ext[r.Intn(len(ext))])})
+			}
+			push(ins)
+			for i := 0; i < 4; i++ {
+				op := []string{"<", "<=", ">", ">="}[r.Intn(4)]
+				w := model.Cmp(op, model.ColOp("b"), model.LitOp(proto.Int([]int64{2, 0, 100, 9223372036854775807, 5000000000000000000}[r.Intn(5)])))
+				if r.Chance(1, 3) {
+					w = model.Cmp(op, model.ColOp("b"), model.ColOp("b2"))
+				}
+				if r.Bool() {
+					push(&proto.Stmt{Kind: "update", Table: "mx", Sets: []proto.SetItem{{Col: "k", Val: proto.Int(int64(100 + i))}}, Where: w})
+				} else {
+					push(&proto.Stmt{Kind: "delete", Table: "mx", Where: w})
+				}
+				observe(true, 1, 0)
+			}
+		}
 		observe(true, 1, 0)
 		cond := func() *proto.Cond {
 			col := []string{"k", "v", "w"}[r.Intn(3)]
@@ -238,6 +263,32 @@ func buildHistory(c *core.Ctx, prop string, idx int, kind string) *histCase {
 				push(ins)
 			}
 		}
+	case "deepest":
+		// one table grown until its tree is four pages tall (root, two levels
+		// of internal nodes, leaf: from about 170 000 rows on), then deletes,
+		// more rows and a reload
+		h.MaxTables = 1
+		hc.addStmt(h.Next(), st) // create
+		t := h.DB.Tables[0]
+		for len(t.Rows) < 172000 {
+			hc.addStmt(h.Burst(t, 4000), st)
+			hc.other("flush") // (the timer is off: the cache holds 10000 pages)
+		}
+		observe(true, 1, 0)
+		var maxK int64
+		for _, row := range t.Rows {
+			if row.Vals[0].I > maxK {
+				maxK = row.Vals[0].I
+			}
+		}
+		del := &proto.Stmt{Kind: "delete", Table: t.Name, Where: model.Cmp(">=", model.ColOp("k"), model.LitOp(proto.Int(maxK-20)))}
+		if f, _, _, err := h.DB.Apply(del); f == "" && err == nil {
+			hc.addStmt(del, st)
+		}
+		hc.addStmt(h.Burst(t, 300), st)
+		hc.other("flush")
+		hc.reopen()
+		observe(true, 1, 0)
 	case "huge":
 		// single statements that change thousands of pages, nothing flushed in
 		// between, and then the session ends: everything the cache holds has
@@ -370,6 +421,11 @@ func historyCheck(c *core.Ctx, prop string) []core.Floor {
 	for i := 0; i < 12; i++ {
 		cases = append(cases, buildHistory(c, prop, 6000000+i, "mirrored"))
 	}
+	// (one tree of four levels: in the quick tier for C11 only, where the walk
+	// is what counts; in the thorough tier for both)
+	if prop == "C11" || !core.Quick(c) {
+		cases = append(cases, buildHistory(c, prop, 7000000, "deepest"))
+	}
 	nHuge := 2
 	if !core.Quick(c) {
 		nHuge = 6
@@ -391,7 +447,7 @@ func historyCheck(c *core.Ctx, prop string) []core.Floor {
 	if prop == "C01" {
 		return []core.Floor{{Key: "tombstone_crossed_split", Min: 1}, {Key: "internal_splits", Min: 1}, {Key: "catalog_root_moves", Min: 1}, {Key: "dumps_compared", Min: 100}}
 	}
-	return []core.Floor{{Key: "walks", Min: 100}, {Key: "walks_depth3", Min: 1}, {Key: "pages_checked", Min: 1000}, {Key: "recoveries_that_rebuilt_pages", Min: 20}, {Key: "histories_smallcache", Min: 10}}
+	return []core.Floor{{Key: "walks", Min: 100}, {Key: "walks_depth3", Min: 1}, {Key: "max_depth", Min: 4}, {Key: "pages_checked", Min: 1000}, {Key: "recoveries_that_rebuilt_pages", Min: 20}, {Key: "histories_smallcache", Min: 10}}
 }
 
 func runHistoryCase(c *core.Ctx, prop, drv string, hc *histCase) {
